@@ -1046,6 +1046,13 @@ class PolarsModel(data_algebra.data_model.DataModel):
                 op.sources[1].columns_produced()
             ) - set(op.on_a)
             orphan_keys = [c for c in on_b if c not in set(on_a)]
+            if how == "outer":
+                # Polars coalesces either all key pairs or none: do it by hand, so that
+                # same named keys are coalesced and differently named keys stay apart.
+                coalesce_columns = coalesce_columns.union(
+                    [c_a for c_a, c_b in zip(on_a, on_b) if c_a == c_b]
+                )
+                orphan_keys = []
             input_right = inputs[1]
             if len(orphan_keys) > 0:
                 input_right = input_right.with_columns(
@@ -1057,7 +1064,7 @@ class PolarsModel(data_algebra.data_model.DataModel):
                 right_on=on_b,
                 how=how,
                 suffix="_da_right_tmp",
-                coalesce=True,
+                coalesce=(how != "outer"),
             )
             if len(coalesce_columns) > 0:
                 res = res.with_columns(
